@@ -22,7 +22,11 @@ ID = "C10"
 LEAN_MODULE = "LiquidVerif.Props.C10"
 TRANSLATE = False
 RULE = (
-    "streams: spaces (all 0x110000 code points: str.isspace, regex \\s and str.strip against the model's whitespace "
+    "streams: scan (ARBITRARY strings, mostly malformed: every string of up to 3/4 atoms over two 10-atom alphabets of "
+    "delimiters, hyphens, blanks, keywords, plus random concatenations of ~70 markup fragments, default / template_comments / "
+    "seven custom delimiter sets: the compiled regex's finditer against the model's hand-written string scanner `scan`, and the "
+    "real token list against tokenize(scan) incl. the end-of-file errors), delims (random piece lists under seven custom "
+    "non-colliding delimiter sets, all four levels), spaces (all 0x110000 code points: str.isspace, regex \\s and str.strip against the model's whitespace "
     "table; exhaustive), strip (str.lstrip/rstrip against the model on whitespace-rich strings), triple (every markup "
     "kind — output, assign, echo, inline comment, liquid, raw, doc, block comment, shorthand comment, padded and "
     "unpadded — with every combination of its 2 or 4 whitespace-control markers, between every pair of text fragments "
@@ -32,14 +36,15 @@ RULE = (
     "between them; exhaustive), random (piece lists of 1..14 pieces: random paddings incl. unicode whitespace, nested "
     "block comments containing markup, raw bodies containing markup, markup-like text). Every case is observed at four "
     "levels, all compared with the model: `finditer` of the compiled rules against matchesOf (match), the real token list against tokenize (tokens), "
-    "the parsed node list (classes and retained text) against parse (nodes), the rendered output against the model and against the direct specification spec_render (render). Non-trivial: "
+    "the parsed node list (classes and retained text) against parse (nodes), the rendered output — render() and render_async(), which must agree — against the model and against the direct specification spec_render (render). Non-trivial: "
     "some text piece next to markup has whitespace on the facing edge (so the marker decides what is output), or the "
     "case contains a raw / doc / comment piece."
 )
 TRUSTED_BASE = [
     "Lean 4.33 kernel; axioms subset of {propext, Classical.choice, Quot.sound}",
     "hand-written models LiquidVerif/Model/Lex.lean (pieces, assemble, matchesOf, _tokenize_template line by line) and Model/LexRender.lean (Parser._parse + the parse methods of content/comment/doc/inline-comment tags, render fold)",
-    "that the compiled regex of compile_liquid_rules finds, on a source assembled from well-formed pieces (srcWf), exactly one match per piece with the groups stated by matchesOf — not proved, measured by stream `match` on every case of every stream",
+    "that the hand-written string scanner `scan` (Model/LexScan.lean) equals `rules.finditer` of the compiled regex on strings — measured by stream `scan` on arbitrary (mostly malformed) strings under default, template-comment and custom delimiters; and that `scan (assemble d ps) = matchesOf d 0 ps` on well-formed piece lists — proved for text pieces, offsets and tiling (scan_assemble_partial), for markup pieces evaluated by the driver on every case (`scan_eq`) and compared with finditer by the `match` level",
+    "the liquid tag's line scanner model Model/LiquidLines.lean (C20's, tied there by its own stream; here it drives the render level of every liquid piece)",
     "CPython str.lstrip()/rstrip()/isspace and regex \\s agree with the model's 29-code-point whitespace table (stream spaces, exhaustive over all code points)",
     "correspondence harness harness/props/c10.py + Driver/C10.lean; the Python assemble() is compared with the model's assemble on every case",
     "what an output statement / echo / assign / liquid tag prints is a parameter (Sem) of the render theorems; the driver instantiates it with literals and assigned variables only",
@@ -48,12 +53,13 @@ ASSUMPTIONS = [
     "Quantifier as in the property: sources assembled from text, output statements, raw, comment, doc, inline-comment and liquid tags (plus assign/echo as representatives of 'every tag kind'); block tags such as if/for are outside it (their blank-body suppression is a different rule)",
     "Text pieces contain no opening delimiter ({{, {%, and {# when template comments are on) and expressions do not contain their own closing delimiter (srcWf) — otherwise the fragment is markup, not text",
     "Block comments are balanced inside the piece list for the comment theorems (a comment never closed is a syntax error)",
-    "Delimiters: default and default + template_comments; custom delimiters are C11's quantifier (the model keeps Delims as a parameter)",
+    "Delimiters: default and default + template_comments are the property's quantifier; seven custom plain delimiter sets are exercised in streams delims and scan (the scanner assumes Delims.plain: no delimiter starts with whitespace, '-' or a word character)",
+    "`{#-#}` (shorthand comment, empty body, one hyphen) is outside the quantifier: the single hyphen is both the left and the right marker, so no piece list with one marker assembles to it; the observed behaviour (both sides stripped) is mirrored by the scanner and pinned by the scan stream",
 ]
 MANIFEST = {
-    "technique": "Lean 4 proof (induction over the piece list of a template, for all pieces, paddings, markers and delimiters) of a line-by-line model of _tokenize_template + parser/render of the anchored tags; differential correspondence at three levels (regex matches, tokens, rendered output), exhaustive over marker combinations x piece kinds x neighbours",
-    "text": "Theorems lex_refines_spec, nodes_split, strip_rules, strip_between, text_verbatim, whitespace_only_text, markup_item, raw_verbatim, comments_silent, render_strip_rules, render_raw_verbatim, render_comments_silent, wf_text_is_clean, tokens_start_in_source, lstrip_spec, rstrip_spec hold for every piece list with no bound on length, nesting depth of comments, padding or text; the model is tied to liquid/lex.py by comparing finditer matches, token lists (values and start offsets), parsed node lists and rendered output on every generated case.",
-    "note": "Trusted: Lean kernel (axioms propext/Classical.choice/Quot.sound only), the hand model, the harness, and the regex engine finding one match per well-formed piece (measured by the match stream, not proved). Three defects of the original tree were repaired on fix-C10 (endraw's right marker ignored; trailing newline of a template swallowed after a right-controlled tag; empty liquid tag consuming the following token); the model mirrors the repaired code.",
+    "technique": "Lean 4 proof (induction over the piece list of a template, for all pieces, paddings, markers and delimiters) of a line-by-line model of _tokenize_template + parser/render of the anchored tags; a deterministic string-level scanner for the rule alternation; differential correspondence at four levels (regex matches, tokens, parsed nodes, rendered output sync+async) and scanner-vs-regex on arbitrary strings, exhaustive over marker combinations x piece kinds x neighbours",
+    "text": "Theorems lex_refines_spec, nodes_split, strip_rules, strip_between, text_verbatim, whitespace_only_text, markup_item, raw_verbatim, comments_silent, render_strip_rules, render_raw_verbatim, render_comments_silent, wf_text_is_clean, tokens_start_in_source, liquid_inner_tokens_in_source, scan_text, lstrip_spec, rstrip_spec hold for every piece list with no bound on length, nesting depth of comments, padding or text; the model is tied to liquid/lex.py by comparing finditer matches, token lists (values and start offsets), parsed node lists and rendered output on every generated case.",
+    "note": "Trusted: Lean kernel (axioms propext/Classical.choice/Quot.sound only), the hand model, the harness, and that the hand-written string scanner `scan` equals the compiled regex's finditer (measured on arbitrary strings by stream scan, not proved). Partial: scan_assemble_partial / string_level_refines_spec_partial: the string-level statement (scanner on the assembled string = matchesOf, hence string -> nodes = specification) is proved for text pieces, offsets and tiling; that each markup piece is found by the scanner (AllMarkupFound) is a hypothesis, evaluated by the driver on every case. Three defects of the original tree were repaired on fix-C10 (endraw's right marker ignored; trailing newline of a template swallowed after a right-controlled tag; empty liquid tag consuming the following token); the model mirrors the repaired code.",
 }
 
 _ESC = re.compile("\x01(\\d+);")
